@@ -27,7 +27,7 @@ META = {
     "exhaustive_tiers": {"quick": {"histories of length <= 2 over 12 operations x 13 configurations": True},
                          "thorough": {"histories of length <= 3 over 12 ops + length 4 over 6 state-touching ops x 13 configurations": True}},
 }
-META["added"] = "Added: in-memory forecasts without n_cat (13 configurations), spatial_counts(cartesian=True) as a twelfth operation, empty-first catalog layouts. in-memory catalogs that only declare the forecast's filter statements. region-less in-memory catalogs, reference = equivalent pre-filtered plain forecast. empty observations, id gaps in files, catalogs bound to another region."
+META["added"] = "Added: regions that do not fill their bounding box (a missing lattice cell; events in the hole are outside), magnitudes far above the last edge in the synthetic catalogs. in-memory forecasts without n_cat (13 configurations), spatial_counts(cartesian=True) as a twelfth operation, empty-first catalog layouts. in-memory catalogs that only declare the forecast's filter statements. region-less in-memory catalogs, reference = equivalent pre-filtered plain forecast. empty observations, id gaps in files, catalogs bound to another region."
 MANIFEST = {
     "technique": "sequential history log on a live CatalogForecast checked op-by-op against a reference model (filtered catalog list) and, for evaluations, against the equivalent pre-filtered plain forecast; quiescent-state invariant after each complete operation; exhaustive short histories + random long ones",
     "level_text": "All operation histories up to length 2 (quick) / 3-4 (thorough) over the 12 public operations are enumerated on 13 source/filter configurations; each step's observable result (pass stream, event counts, n_cat, expected rates, marginals, the six evaluations) must equal the single-pass reference regardless of what was called before, and the iterator must be back in its initial state after every complete operation.",
@@ -62,18 +62,31 @@ def gen_forecast(rng, cfg):
     ncat = int(rng.integers(3, 7))
     cats = []
     k = 0
+    # every third forecast: the region does not fill its bounding box (one lattice cell is missing); a point in the hole is outside the region
+    hole = [int(rng.integers(0, nx)), int(rng.integers(0, ny))] if rng.uniform() < 0.34 else None
+
+    def cell():
+        while True:
+            i_, j_ = int(rng.integers(0, nx)), int(rng.integers(0, ny))
+            if hole is None or [i_, j_] != hole:
+                return i_, j_
     for c in range(ncat):
         n = int(rng.choice([0, 1, 2, 4, 7]))
         if c == 1:
             n = 0
         evs = []
         for _ in range(n):
-            i, j = int(rng.integers(0, nx)), int(rng.integers(0, ny))
+            i, j = cell()
             lon = ax + (i + float(rng.uniform(0.2, 0.8))) * dh
             lat = ay + (j + float(rng.uniform(0.2, 0.8))) * dh
-            mag = float(mags[int(rng.integers(0, 4))] + 0.03)
+            mb = int(rng.integers(0, 4))
+            mag = float(mags[mb] + 0.03)
+            if mb == 3 and rng.uniform() < 0.4:
+                mag = float(mags[3] + float(rng.choice([0.12, 1.7, 3.4])))      # the last magnitude bin is open-ended
             if cfg["spatial"] and rng.uniform() < 0.25:
                 lon = ax + (nx + 1.5) * dh                     # outside the region: removed by the spatial filter
+                if hole is not None and rng.uniform() < 0.6:
+                    lon, lat = ax + (hole[0] + 0.4) * dh, ay + (hole[1] + 0.6) * dh      # inside the bounding box, in the missing cell
             if cfg["filters"] and rng.uniform() < 0.25:
                 mag = 4.2                                      # below the magnitude threshold: removed by the filter
             evs.append(("e%d" % k, 1262304000000 + 1000 * k, lat, lon, 5.0, mag))
@@ -81,11 +94,21 @@ def gen_forecast(rng, cfg):
         cats.append(evs)
     obs = []
     for q in range(int(rng.integers(1, 6))):
-        i, j = int(rng.integers(0, nx)), int(rng.integers(0, ny))
+        i, j = cell()
         obs.append(("o%d" % q, 1262304000000 + q, ay + (j + 0.5) * dh, ax + (i + 0.5) * dh, 5.0, float(mags[int(rng.integers(0, 4))] + 0.03)))
     if rng.uniform() < 0.15:
         obs = []          # an observed catalog without events: the tests signal it, and must still leave the forecast ready for the next pass
-    return {"cats": cats, "obs": obs, "grid": [nx, ny, dh, ax, ay]}
+    return {"cats": cats, "obs": obs, "grid": [nx, ny, dh, ax, ay], "hole": hole}
+
+
+def _cells(fc):
+    nx, ny = fc["grid"][0], fc["grid"][1]
+    hole = fc.get("hole")
+    return [(i, j) for i in range(nx) for j in range(ny) if hole is None or [i, j] != list(hole)]
+
+
+def _active(fc):
+    return None if fc.get("hole") is None else set(_cells(fc))
 
 
 def reference(fc, cfg):
@@ -97,6 +120,8 @@ def reference(fc, cfg):
             if cfg["filters"] and not (e[5] >= MIN_MAG):
                 continue
             inside = (ax <= e[3] < ax + nx * dh) and (ay <= e[2] < ay + ny * dh)
+            if inside and fc.get("hole") is not None:
+                inside = [int(math.floor((e[3] - ax) / dh)), int(math.floor((e[2] - ay) / dh))] != list(fc["hole"])
             if cfg["spatial"] and not inside:
                 continue
             keep.append(e)
@@ -115,7 +140,7 @@ def build(fc, cfg, tmpdir):
     from csep.core.forecasts import CatalogForecast
     nx, ny, dh, ax, ay = fc["grid"]
     mags = fixtures.mag_bins("4.95", "0.1", 4)
-    reg = fixtures.region(nx, ny, dh, ax, ay, magnitudes=mags)
+    reg = fixtures.region(nx, ny, dh, ax, ay, magnitudes=mags, active=_active(fc))
     kw = {"region": reg, "apply_filters": bool(cfg["filters"] or cfg["spatial"]), "filter_spatial": bool(cfg["spatial"]),
           "filters": ["magnitude >= %r" % MIN_MAG] if cfg["filters"] else [], "name": "cf"}
     if cfg["source"].startswith("memory"):
@@ -156,7 +181,7 @@ def build_plain(fc, cfg):
     from csep.core.forecasts import CatalogForecast
     nx, ny, dh, ax, ay = fc["grid"]
     mags = fixtures.mag_bins("4.95", "0.1", 4)
-    reg = fixtures.region(nx, ny, dh, ax, ay, magnitudes=mags)
+    reg = fixtures.region(nx, ny, dh, ax, ay, magnitudes=mags, active=_active(fc))
     M = reference(fc, cfg)
     cats = [CSEPCatalog(data=list(evs), catalog_id=i, region=reg) for i, evs in enumerate(M)]
     f = CatalogForecast(catalogs=cats, region=reg, n_cat=len(cats), name="cf")
@@ -167,13 +192,14 @@ def build_plain(fc, cfg):
 def grid_ref(M, fc):
     nx, ny, dh, ax, ay = fc["grid"]
     mags = fixtures.mag_bins("4.95", "0.1", 4)
-    tot = numpy.zeros((nx * ny, 4))
+    cells = _cells(fc)
+    tot = numpy.zeros((len(cells), 4))
     for evs in M:
         for e in evs:
             i = int(math.floor((e[3] - ax) / dh))
             j = int(math.floor((e[2] - ay) / dh))
             k = min(int(numpy.searchsorted(mags, e[5], side="right") - 1), 3)
-            tot[i * ny + j, k] += 1
+            tot[cells.index((i, j)), k] += 1
     return tot / len(M)
 
 
@@ -282,7 +308,7 @@ def _run_history(ctx, fc, cfg, ops, tmp, cache):
             if op == "SCART":
                 # the bounding-box layout of the same per-cell values (the layout itself is C01's business)
                 want = numpy.asarray(reg.get_cartesian(want), dtype=float)
-            if numpy.shape(val) != numpy.shape(want) or not numpy.allclose(val, want, rtol=1e-12, atol=0):
+            if numpy.shape(val) != numpy.shape(want) or not numpy.allclose(val, want, rtol=1e-12, atol=0, equal_nan=True):
                 ctx.violate("forecast marginal counts != marginals of the mean rates", rc, observed=val, expected=want, tags=dict(tags, clause="marginals"))
         else:
             ctx.mon("history:evaluation-independence", 1)
